@@ -398,9 +398,71 @@ static int hdf_xdr_NCvdata(NC *handle, NC_var *vp, unsigned long where, nc_type 
     __CPROVER_ensures((__CPROVER_return_value == SUCCEED && g_iofail == __CPROVER_old(g_iofail)) ||
                       (__CPROVER_return_value == FAIL && g_iofail == 1));
 
-/* NCvario itself carries no function contract: its specification is asserted by the harness
-   (h_NCvario) -- enforcing a contract adds an assigns-clause check to every store of the unwound
-   odometer (27 K verification conditions, out of memory at rank 2). */
+/* ---- NCcoordck and NC_varoffset: contracts in UNROLLED form for rank <= 3 (no ghost dimension: the
+   caller needs the verdict for ALL dimensions).  Both are proved in this unit on vectors with a
+   guard element (obligations NCcoordck_r3 / NC_varoffset_r3) and REPLACE the calls inside NCvario:
+   NCvario hands them its local array `coords`, and their loops `for (; ip >= boundary; ip--)` form
+   the address one element before that array -- cbmc's pointer model wraps the offset and runs on
+   (A-GUARD, see units/putget_u.c), so the real bodies cannot be executed there. */
+#define IO_RANK(vp) ((int)(vp)->assoc->count)
+#define IO_OUT(vp, co, i)                                                                            \
+    (IO_RANK(vp) > (i) && C03_FIXED(vp, i) && ((co)[i] < 0 || (co)[i] >= (long)(vp)->shape[i]))
+#define CK3_BAD(h, vp, co, nr)                                                                       \
+    (IO_OUT(vp, co, 0) || IO_OUT(vp, co, 1) || IO_OUT(vp, co, 2) ||                                  \
+     (C03_REC(vp) && ((co)[0] < 0 || ((h)->xdrs->x_op != XDR_ENCODE && (co)[0] >= (long)(nr)))))
+#define CK3_GROWS(vp, co, nr) (C03_REC(vp) && (co)[0] >= (long)(nr))
+/* a * b for 0 <= b <= 4, without a multiplier */
+#define MS4(a, b) ((b) == 0 ? 0L : (b) == 1 ? (a) : (b) == 2 ? 2 * (a) : (b) == 3 ? 3 * (a) : 4 * (a))
+/* row-major element index of a coordinate tuple, extents <= 4 */
+#define VO3(vp, co)                                                                                  \
+    (IO_RANK(vp) == 1   ? (co)[0]                                                                    \
+     : IO_RANK(vp) == 2 ? MS4((co)[0], (long)(vp)->shape[1]) + (co)[1]                               \
+                        : MS4(MS4((co)[0], (long)(vp)->shape[1]) + (co)[1], (long)(vp)->shape[2]) + (co)[2])
+#define IO_GEOM(vp)                                                                                  \
+    (IO_RANK(vp) >= 1 && IO_RANK(vp) <= 3 && (vp)->shape[0] <= 4 &&                                  \
+     (IO_RANK(vp) < 2 || ((vp)->shape[1] >= 1 && (vp)->shape[1] <= 4)) &&                            \
+     (IO_RANK(vp) < 3 || ((vp)->shape[2] >= 1 && (vp)->shape[2] <= 4)))
+
+bool_t H4_NCcoordck(NC *handle, NC_var *vp, const long *coords)
+    __CPROVER_requires(handle == e_h && vp == g_vp && coords != NULL && IO_GEOM(vp) && g_iofail == 0)
+    __CPROVER_requires(coords[0] >= -2 && coords[0] <= 16 && vp->numrecs >= 0 && vp->numrecs <= 16)
+    __CPROVER_assigns(vp->numrecs, handle->numrecs, handle->flags, vp->aid, vp->data_ref, vp->set_length, g_hw_n, g_hw_ok,
+                      g_seek_n, g_seek_off, g_iofail)
+    __CPROVER_ensures(__CPROVER_return_value == TRUE || __CPROVER_return_value == FALSE)
+    /* the verdict, over all dimensions: FALSE iff some coordinate is outside (or an I/O step failed) */
+    __CPROVER_ensures(CK3_BAD(handle, vp, coords, __CPROVER_old(vp->numrecs)) ==> __CPROVER_return_value == FALSE)
+    __CPROVER_ensures((!CK3_BAD(handle, vp, coords, __CPROVER_old(vp->numrecs)) && !g_iofail) ==> __CPROVER_return_value == TRUE)
+    __CPROVER_ensures(g_iofail ==> __CPROVER_return_value == FALSE)
+    /* state changes only when a record variable grows on the write path */
+    __CPROVER_ensures((__CPROVER_return_value == TRUE && CK3_GROWS(vp, coords, __CPROVER_old(vp->numrecs))) ==>
+                      ((long)vp->numrecs == coords[0] + 1 && handle->xdrs->x_op == XDR_ENCODE &&
+                       (long)handle->numrecs == (coords[0] + 1 > (long)__CPROVER_old(handle->numrecs)
+                                                     ? coords[0] + 1 : (long)__CPROVER_old(handle->numrecs))))
+    __CPROVER_ensures((!g_iofail && !(__CPROVER_return_value == TRUE && CK3_GROWS(vp, coords, __CPROVER_old(vp->numrecs)))) ==>
+                      (vp->numrecs == __CPROVER_old(vp->numrecs) && handle->numrecs == __CPROVER_old(handle->numrecs) &&
+                       handle->flags == __CPROVER_old(handle->flags) && g_hw_n == __CPROVER_old(g_hw_n)))
+    /* fill records are written only for growth with fill mode on */
+    __CPROVER_ensures(g_hw_n != __CPROVER_old(g_hw_n) ==>
+                      (CK3_GROWS(vp, coords, __CPROVER_old(vp->numrecs)) && (__CPROVER_old(handle->flags) & NC_NOFILL) == 0 &&
+                       handle->xdrs->x_op == XDR_ENCODE));
+
+static unsigned long NC_varoffset(NC *handle, NC_var *vp, const long *coords)
+    __CPROVER_requires(handle == e_h && vp == g_vp && coords != NULL && handle->file_type == HDF_FILE && IO_GEOM(vp))
+    __CPROVER_requires(vp->HDFsize == C03_W && C03_DSIZES_RM3(vp, C03_W))
+    /* the caller has validated the coordinates (NCcoordck) */
+    __CPROVER_requires(!IO_OUT(vp, coords, 0) && !IO_OUT(vp, coords, 1) && !IO_OUT(vp, coords, 2) && coords[0] >= 0 &&
+                       coords[0] <= 16)
+    __CPROVER_assigns()
+    __CPROVER_ensures(__CPROVER_return_value == (unsigned long)(C03_W * VO3(vp, coords)));
+
+/* NCvario: the FRAME is the function contract (what a call may modify); the functional clauses (a),
+   (b) are asserted by the harness h_NCvario, next to the inputs they are computed from. */
+int H4_NCvario(NC *handle, int varid, const long *start, const long *edges, void *values)
+    __CPROVER_requires(handle == e_h && handle != NULL && start != NULL && edges != NULL && (char *)values == g_rq_values)
+    __CPROVER_requires(g_runs == 0 && g_cells == 0 && g_iofail == 0 && g_hw_n == 0 && g_seek_n == 0)
+    __CPROVER_assigns(g_vp->numrecs, e_h->numrecs, e_h->flags, g_vp->aid, g_vp->data_ref, g_vp->set_length, g_cells, g_runs,
+                      g_iofail, g_hw_n, g_hw_ok, g_seek_n, g_seek_off)
+    __CPROVER_ensures(__CPROVER_return_value == 0 || __CPROVER_return_value == -1);
 #endif
 
 #ifdef H4V_NATIVE
@@ -565,6 +627,73 @@ mul_small(long a, long b)
 #define VA_MAXEXT 4
 #define VA_MAXEDGE 3
 
+/* geometry + one coordinate vector, all with a guard element in front */
+static h4v_long *
+mk_geom(void)
+{
+    static h4v_ulong shape_g[4], dsizes_g[4];
+    static h4v_long  co_g[4];
+    h4v_ulong       *shape = shape_g + 1, *dsizes = dsizes_g + 1;
+    H4V_ND(int, rank);
+    H4V_ASSUME(rank >= 1 && rank <= 3);
+    H4V_ND(h4v_ulong, sh0);
+    H4V_ND(h4v_ulong, sh1);
+    H4V_ND(h4v_ulong, sh2);
+    H4V_ND(h4v_long, co0);
+    H4V_ND(h4v_long, co1);
+    H4V_ND(h4v_long, co2);
+    shape[0] = sh0, shape[1] = sh1, shape[2] = sh2;
+    co_g[1] = co0, co_g[2] = co1, co_g[3] = co2;
+    H4V_ASSUME(sh0 <= 4 && sh1 >= 1 && sh1 <= 4 && sh2 >= 1 && sh2 <= 4);
+    dsizes[rank - 1] = C03_W;
+    for (int i = 1; i >= 0; i--)
+        if (i < rank - 1)
+            dsizes[i] = (h4v_ulong)mul_small((long)dsizes[i + 1], (long)shape[i + 1]);
+    s_as.count  = (unsigned)rank;
+    s_as.values = NULL;
+    s_vp.shape  = shape;
+    s_vp.dsizes = dsizes;
+    s_vp.len    = (sh0 == 0) ? dsizes[0] : (h4v_ulong)mul_small((long)dsizes[0], (long)sh0);
+    return co_g + 1;
+}
+
+void
+h_NCcoordck3(void)
+{
+    mk_skel();
+    g_fw_mode    = 0;
+    h4v_long *co = mk_geom();
+    H4V_ND(int, v_numrecs);
+    H4V_ASSUME(v_numrecs >= 0 && v_numrecs <= 16 && co[0] >= -2 && co[0] <= 16);
+    /* bound: at most 3 fill records per call */
+    H4V_ASSUME(co[0] - v_numrecs <= 2);
+    s_vp.numrecs     = v_numrecs;
+    g_nr0            = v_numrecs;
+    cdf_routine_name = (s_x.x_op == XDR_ENCODE) ? "SDwritedata" : "SDreaddata";
+    int    old_nr = v_numrecs;
+    bool_t r      = NCcoordck(&s_nc, &s_vp, co);
+    H4V_COVER(r == FALSE && !g_iofail && (int)s_as.count == 3, "rejects at rank 3");
+    H4V_COVER(r == TRUE && s_vp.numrecs > old_nr && g_hw_n == 3, "grows and fills 3 records");
+    H4V_COVER(r == TRUE && s_vp.numrecs > old_nr && g_hw_n == 0, "grows without fill");
+    H4V_COVER(r == TRUE && s_vp.shape[0] != 0 && (int)s_as.count == 3, "accepts fixed-size rank 3");
+    H4V_COVER(r == FALSE && g_iofail, "I/O failure");
+    H4V_CANARY("NCcoordck3 end");
+}
+
+void
+h_NC_varoffset3(void)
+{
+    mk_skel();
+    h4v_long *co = mk_geom();
+    H4V_ASSUME(co[0] >= 0 && co[0] <= 16);
+    for (int i = 0; i < 3; i++)
+        H4V_ASSUME(!IO_OUT(&s_vp, co, i));
+    unsigned long o = NC_varoffset(&s_nc, &s_vp, co);
+    H4V_COVER(o > 0 && (int)s_as.count == 3 && s_vp.shape[0] == 0, "rank 3 record variable");
+    H4V_COVER(o > 0 && (int)s_as.count == 2 && s_vp.shape[0] != 0, "rank 2 fixed");
+    H4V_CANARY("NC_varoffset3 end");
+}
+
 void
 h_NCvario(void)
 {
@@ -599,8 +728,6 @@ h_NCvario(void)
     }
     int rec = (shape[0] == 0);
     int wr  = (s_x.x_op == XDR_ENCODE);
-    /* bound: a record write starts at most one record beyond the end (<= 2 fill records per NCcoordck call) */
-    H4V_ASSUME(!(rec && wr) || start[0] <= (long)v_numrecs + 1);
     /* geometry as NC_var_shape compiles it (C03_DSIZES_RM3) */
     dsizes[rank - 1] = C03_W;
     for (int i = 1; i >= 0; i--)
